@@ -1,6 +1,6 @@
 (** C16 proofs, part 4: from_buffers(to_buffers c) has the value of c (fragment). *)
 From Coq Require Import ZArith List Bool Lia ZifyBool.
-From AwkV Require Import Base Layout LayoutInd Valid Types Proofs_Lists Proofs_C11 Proofs_Typing Proofs_ToList.
+From AwkV Require Import Base Layout LayoutInd Valid Types Proofs_Lists Proofs_C11 Proofs_Typing Proofs_ToList Proofs_Carry.
 From AwkBuffers Require Import Buffers Proofs_C16 Proofs_C16b.
 Import ListNotations.
 Open Scope Z_scope.
@@ -9,25 +9,27 @@ Open Scope Z_scope.
 Fixpoint resets (c : content) : bool :=
   match c with
   | Numpy _ _ _ | ListOffset _ _ _ | ListA _ _ _ _ | Indexed _ _ _ | IndexedOption _ _ _ | ByteMasked _ _ _ => true
+  | Union _ _ _ _ => true
   | Empty => true
-  | Regular c' _ _ | Unmasked c' | Par _ _ c' => resets c'
+  | Regular c' size _ => negb (size =? 0) && resets c'
+  | Unmasked c' | Par _ _ c' => resets c'
   | _ => false
   end.
 
-(* the fragment: 1-d NumpyArray, EmptyArray, ListOffsetArray (offsets inside the content), ListArray and ByteMaskedArray over
-   nodes that come back whole, RegularArray of positive size, IndexedArray, IndexedOptionArray, UnmaskedArray, RecordArray
-   (tuples and keyed), parameters (strings, bytestrings, record names) *)
+(* the fragment: NumpyArray (any number of dimensions, inner dimensions positive), EmptyArray, ListOffsetArray (offsets inside the content), ListArray and ByteMaskedArray over
+   nodes that come back whole, BitMaskedArray over such nodes, RegularArray, IndexedArray, IndexedOptionArray, UnmaskedArray, RecordArray
+   (tuples and keyed), UnionArray over nodes that come back whole, parameters (strings, bytestrings, record names) *)
 Fixpoint frag16 (c : content) : bool :=
   match c with
-  | Numpy _ shape _ => match shape with [_] => true | _ => false end
+  | Numpy _ shape _ => match shape with [] => false | _ :: dims => forallb (fun d => 0 <? d) dims end
   | ListOffset _ o c' => frag16 c' && forallb (fun x => (0 <=? x) && (x <=? clen c')) o
   | ListA _ _ _ c' => frag16 c' && resets c'
-  | Regular c' size _ => (0 <? size) && frag16 c'
+  | Regular c' size _ => (0 <=? size) && frag16 c'
   | Empty => true
   | Indexed _ _ c' | IndexedOption _ _ c' | Unmasked c' | Par _ _ c' => frag16 c'
-  | ByteMasked _ _ c' => frag16 c' && resets c'
+  | ByteMasked _ _ c' | BitMasked _ _ _ _ c' => frag16 c' && resets c'
   | Record cs _ _ => (fix all (l : list content) : bool := match l with [] => true | x :: xs => frag16 x && all xs end) cs
-  | _ => false
+  | Union _ _ _ cs => (fix all (l : list content) : bool := match l with [] => true | x :: xs => frag16 x && resets x && all xs end) cs
   end.
 Lemma frag16_all cs :
   (fix all (l : list content) : bool := match l with [] => true | x :: xs => frag16 x && all xs end) cs = forallb frag16 cs.
@@ -50,27 +52,49 @@ Lemma to_list_clen c vs : to_list c = Ok vs -> zlen vs = clen c /\ 0 <= clen c.
 Proof. intros H. pose proof (to_list_len c vs H). pose proof (zlen_nonneg vs). lia. Qed.
 
 (* ---------------------------------------------------------------- leaves *)
+Lemma nest_prefix dims n rows (L vs : list value) :
+  Forall (fun d => 0 <= d) dims -> 0 <= rows <= n -> zlen L = n * prodZ dims -> nest dims n L = Ok vs ->
+  nest dims rows (take (rows * prodZ dims) L) = Ok (take rows vs).
+Proof.
+  intros Hd Hr HL Hn. pose proof (prodZ_nonneg dims Hd) as Hp.
+  set (L1 := take (rows * prodZ dims) L). set (L2 := drop (rows * prodZ dims) L).
+  assert (HL1 : zlen L1 = rows * prodZ dims) by (unfold L1; rewrite zlen_take_min; nia).
+  assert (HL2 : zlen L2 = (n - rows) * prodZ dims) by (unfold L2; rewrite zlen_drop; nia).
+  destruct (nest_total dims rows L1 Hd ltac:(lia)) as (x & Hx). destruct (nest_total dims (n - rows) L2 Hd ltac:(lia)) as (y & Hy).
+  pose proof (nest_app dims rows (n - rows) L1 L2 x y Hd ltac:(lia) ltac:(lia) HL1 HL2 Hx Hy) as Happ.
+  replace (rows + (n - rows)) with n in Happ by lia. unfold L1, L2 in Happ. rewrite take_drop_id in Happ.
+  rewrite Hn in Happ. injection Happ as ->. fold L1. rewrite Hx. f_equal.
+  pose proof (nest_zlen dims rows L1 x Hx Hd ltac:(lia) HL1) as Hzx. symmetry. apply take_app_exact. exact Hzx.
+Qed.
+
 Lemma rt_core_Numpy dt shape data : rt_core (Numpy dt shape data).
 Proof.
-  intros t len vs Hf Ht Hlen Hvs. cbn [frag16] in Hf. destruct shape as [|n [|? ?]]; try discriminate Hf.
-  rewrite to_list_Numpy in Hvs. cbn [existsb] in Hvs. destruct (n <? 0) eqn:En; [discriminate Hvs|]. cbn [orb] in Hvs.
-  unfold prodZ in Hvs. cbn [fold_right] in Hvs. destruct (zlen data <? n * 1) eqn:Ed; [discriminate Hvs|].
-  assert (Hn : 0 <= n) by lia. assert (Hd : n <= zlen data) by lia.
-  cbn [nest] in Hvs. injection Hvs as <-. unfold rt_concl.
+  intros t len vs Hf Ht Hlen Hvs. cbn [frag16] in Hf. destruct shape as [|n dims]; [discriminate Hf|].
+  assert (Hdims : Forall (fun d => 0 < d) dims).
+  { apply Forall_forall. intros d Hd. rewrite forallb_forall in Hf. specialize (Hf d Hd). lia. }
+  assert (Hd0 : Forall (fun d => 0 <= d) dims) by (eapply Forall_impl; [|exact Hdims]; cbn; intros; lia).
+  assert (Hp : 0 < prodZ dims) by (clear - Hdims; induction Hdims as [|d ds Hd _ IH]; [reflexivity|rewrite prodZ_cons; nia]).
+  rewrite to_list_Numpy in Hvs. destruct (existsb (fun d => d <? 0) (n :: dims)) eqn:En; [discriminate Hvs|].
+  destruct (zlen data <? prodZ (n :: dims)) eqn:Ed; [discriminate Hvs|]. rewrite prodZ_cons in *.
+  assert (Hn : 0 <= n) by (cbn [existsb] in En; apply orb_false_iff in En as [En _]; lia).
+  assert (Hd : n * prodZ dims <= zlen data) by lia.
+  set (isz := prodZ dims) in *. unfold rt_concl.
   set (rows := match t with None => n | Some k => k end).
-  assert (Hrows : 0 <= rows <= n /\ len <= rows /\ rows = efflen t (Numpy dt [n] data)).
+  assert (Hrows : 0 <= rows <= n /\ len <= rows /\ rows = efflen t (Numpy dt (n :: dims) data)).
   { unfold rows, efflen, trim_ok in *. cbn [clen] in *. destruct t; lia. }
   destruct Hrows as (Hr & Hlr & Hre).
-  exists (Numpy dt [rows] (take rows data)). cbn [to_ftree of_ftree tl]. fold rows.
-  unfold prodZ. cbn [fold_right existsb]. replace (rows * 1) with rows by lia.
-  assert (Hz : zlen (take rows data) = rows) by (rewrite zlen_take_min; lia).
-  rewrite Hz. replace (1 =? 0) with false by reflexivity. rewrite Z.div_1_r, Z.mod_1_r.
-  replace (rows <? len) with false by lia. cbn [negb Z.eqb].
+  exists (Numpy dt (rows :: dims) (take (rows * isz) data)). cbn [to_ftree of_ftree tl]. fold rows. fold isz.
+  assert (Hz : zlen (take (rows * isz) data) = rows * isz) by (rewrite zlen_take_min; nia).
+  rewrite Hz. replace (isz =? 0) with false by lia.
+  assert (En' : existsb (fun d => d <? 0) dims = false) by (apply Forall_nonneg_existsb; exact Hd0).
+  rewrite En'. rewrite Z.div_mul, Z.mod_mul by lia. replace (rows <? len) with false by lia. cbn [negb Z.eqb].
   split; [reflexivity|]. cbn [clen]. split; [lia|]. split; [|intros _; lia].
-  rewrite to_list_Numpy. cbn [existsb]. replace (rows <? 0) with false by lia. cbn [orb].
-  unfold prodZ. cbn [fold_right]. rewrite Hz. replace (rows <? rows * 1) with false by lia. cbn [nest].
-  f_equal. replace (rows * 1) with rows by lia. replace (n * 1) with n by lia.
-  rewrite take_take by lia. rewrite <- map_take. rewrite take_take by lia. reflexivity.
+  rewrite to_list_Numpy. cbn [existsb]. rewrite En'. replace (rows <? 0) with false by lia. cbn [orb].
+  rewrite prodZ_cons. fold isz. rewrite Hz. replace (rows * isz <? rows * isz) with false by lia.
+  rewrite take_take by lia.
+  assert (EL : map (leaf dt) (take (rows * isz) data) = take (rows * isz) (map (leaf dt) (take (n * isz) data))).
+  { rewrite <- map_take. rewrite take_take by nia. reflexivity. }
+  rewrite EL. apply (nest_prefix dims n rows); [exact Hd0|lia| |exact Hvs]. rewrite zlen_map, zlen_take_min; nia.
 Qed.
 Lemma rt_Numpy dt shape data : rt_at (Numpy dt shape data).
 Proof. intros p t len vs _. apply rt_core_Numpy. Qed.
@@ -278,8 +302,30 @@ Proof.
   rewrite Forall_forall in Hlt. pose proof (Hlt i Hin). lia.
 Qed.
 
+Lemma rt_Regular0 c zl : rt_at c -> rt_at (Regular c 0 zl).
+Proof.
+  intros IH p t len vs HV Hf Ht Hlen Hvs. unfold rt_concl.
+  cbn [frag16] in Hf. apply andb_true_iff in Hf as [_ Hfc].
+  apply Valid_Regular_inv in HV as (HP & _ & Hzl & Hc).
+  pose proof (child_rt p (Regular c 0 zl) c IH HP eq_refl Hc) as IHc. clear IH Hc HP.
+  rewrite to_list_Regular in Hvs. apply bind_Ok in Hvs as (cvs & Hcvs & Hvs). apply rmap_Ok in Hvs as (ch & Hch & ->).
+  destruct (to_list_clen c cvs Hcvs) as [Hzc Hc0].
+  unfold chunks in Hch. cbn in Hch. replace (zl <? 0) with false in Hch by lia. injection Hch as <-.
+  assert (Ek : efflen t (Regular c 0 zl) <= zl /\ 0 <= len <= efflen t (Regular c 0 zl)).
+  { unfold efflen, trim_ok in *. cbn [clen] in *. cbn in *. destruct t; lia. }
+  destruct (IHc (tmul t 0) 0 cvs Hfc) as (c1 & Hof & Hb & Hl1 & _).
+  { unfold tmul, trim_ok. destruct t; [lia|exact I]. }
+  { unfold tmul, efflen. destruct t; lia. }
+  { exact Hcvs. }
+  exists (Regular c1 0 len). cbn [to_ftree of_ftree]. rewrite Z.mul_0_r. rewrite Hof. cbn [bind]. cbn [Z.ltb Z.compare].
+  split; [reflexivity|]. cbn [clen]. cbn [Z.eqb]. split; [lia|]. split; [|cbn; discriminate].
+  rewrite to_list_Regular, Hl1. cbn [bind]. unfold chunks. cbn [Z.ltb Z.compare Z.eqb]. replace (len <? 0) with false by lia.
+  cbn [rmap]. f_equal. rewrite <- map_take. f_equal. rewrite <- map_take. rewrite iota_take by lia. reflexivity.
+Qed.
+
 Lemma rt_Regular c size zl : rt_at c -> rt_at (Regular c size zl).
 Proof.
+  destruct (size =? 0) eqn:E0; [replace size with 0 by lia; apply rt_Regular0|].
   intros IH p t len vs HV Hf Ht Hlen Hvs.
   cbn [frag16] in Hf. apply andb_true_iff in Hf as [Hs Hfc]. assert (Hs' : 0 < size) by lia. clear Hs.
   apply Valid_Regular_inv in HV as (HP & _ & _ & Hc).
@@ -321,7 +367,7 @@ Proof.
     + apply Z2Nat.inj_le; [lia|apply Z.div_pos; lia|]. apply Z.div_le_mono; lia.
     + rewrite Z2Nat.id by lia. pose proof (Z.mul_div_le m size Hs'). lia.
     + lia.
-  - cbn [resets]. intros Hres. specialize (Hr Hres). fold m in Hr. rewrite Hr, Hec. unfold k, efflen. rewrite Ecl.
+  - cbn [resets]. rewrite E0. cbn [negb andb]. intros Hres. specialize (Hr Hres). fold m in Hr. rewrite Hr, Hec. unfold k, efflen. rewrite Ecl.
     destruct t as [j|]; [apply Z.div_mul; lia|reflexivity].
 Qed.
 
@@ -350,6 +396,63 @@ Proof.
   rewrite <- (mapM_take _ _ _ k Hvs). rewrite <- Ez. apply mapM_ext_in. intros [i b] Hin.
   apply zip_In in Hin as [Hi _]. apply iota_In' in Hi.
   unfold pick_opt. destruct (Bool.eqb _ _); [|reflexivity]. apply get_take. lia.
+Qed.
+
+(* ---------------------------------------------------------------- bit masks *)
+Lemma zlen_byte_bits lsb b : zlen (byte_bits lsb b) = 8.
+Proof. unfold byte_bits. rewrite zlen_map. reflexivity. Qed.
+Lemma zlen_unpack lsb m : zlen (unpack_bits lsb m) = 8 * zlen m.
+Proof.
+  induction m as [|b m IH]; [reflexivity|]. unfold unpack_bits in *. cbn [flat_map]. rewrite zlen_app, zlen_byte_bits, IH, zlen_cons. lia.
+Qed.
+Lemma get_unpack lsb : forall m i, 0 <= i < 8 * zlen m ->
+  get (unpack_bits lsb m) i = do b <- bit_at m lsb i; Ok (if b : bool then 1 else 0).
+Proof.
+  induction m as [|byte m IH]; intros i Hi; [change (zlen (@nil Z)) with 0 in Hi; lia|].
+  unfold unpack_bits. cbn [flat_map]. fold (unpack_bits lsb m). rewrite zlen_cons in Hi. unfold bit_at.
+  destruct (i <? 8) eqn:E.
+  - rewrite get_app1 by (rewrite zlen_byte_bits; lia). replace (i / 8) with 0 by (symmetry; apply Z.div_small; lia).
+    rewrite get_cons_0. cbn [bind]. rewrite Z.mod_small by lia. unfold byte_bits. rewrite get_map, get_iota by lia. reflexivity.
+  - rewrite get_app2 by (rewrite zlen_byte_bits; lia). rewrite zlen_byte_bits. rewrite IH by lia. unfold bit_at.
+    replace (i / 8) with ((i - 8) / 8 + 1) by (replace i with ((i - 8) + 1 * 8) at 2 by lia; rewrite Z.div_add by lia; reflexivity).
+    rewrite get_cons_S by (apply Z.div_pos; lia).
+    replace (i mod 8) with ((i - 8) mod 8) by (replace i with ((i - 8) + 1 * 8) at 2 by lia; rewrite Z.mod_add by lia; reflexivity).
+    reflexivity.
+Qed.
+
+Lemma rt_BitMasked m vw lsb n c : rt_at c -> rt_at (BitMasked m vw lsb n c).
+Proof.
+  intros IH p t len vs HV Hf Ht Hlen Hvs.
+  cbn [frag16] in Hf. apply andb_true_iff in Hf as [Hfc Hres].
+  apply Valid_BitMasked_inv in HV as (Hn0 & Hnm & Hnc & _ & Hc).
+  rewrite to_list_BitMasked in Hvs. apply bind_Ok in Hvs as (cvs & Hcvs & Hvs). replace (n <? 0) with false in Hvs by lia.
+  destruct (to_list_clen c cvs Hcvs) as [Hzc Hc0].
+  unfold rt_concl. destruct t as [k|]; unfold efflen, trim_ok in *; cbn [clen] in *.
+  - (* a range slice: the node becomes a ByteMaskedArray over the unpacked bits *)
+    set (m' := take k (take n (unpack_bits lsb m))).
+    assert (Hm' : m' = take k (unpack_bits lsb m)) by (unfold m'; apply take_take; lia).
+    assert (Hzm : zlen m' = k) by (rewrite Hm', zlen_take_min, zlen_unpack; lia).
+    destruct (IH None (Some k) len cvs Hc Hfc ltac:(cbn; lia) ltac:(cbn; lia) Hcvs) as (c1 & Hof & Hb & Hl1 & Hr).
+    specialize (Hr Hres). cbn [efflen] in Hb, Hr.
+    exists (ByteMasked m' vw c1). cbn [to_ftree of_ftree]. fold m'.
+    replace (zlen m' <? len) with false by lia. rewrite Hof. cbn [bind]. replace (clen c1 <? zlen m') with false by lia.
+    split; [reflexivity|]. cbn [clen resets]. split; [lia|]. split; [|discriminate].
+    rewrite to_list_ByteMasked, Hl1. cbn [bind]. rewrite Hzm, Hr.
+    rewrite <- (mapM_take _ _ _ k Hvs). rewrite iota_take by lia. symmetry.
+    apply mapM_pointwise_eq; [rewrite zlen_zip, Hzm, zlen_iota by lia; lia|].
+    intros j Hj. rewrite zlen_iota in Hj by lia. rewrite get_zip, get_iota by (rewrite ?zlen_iota, ?Hzm by lia; lia).
+    cbn [bind]. rewrite Hm', get_take by lia. rewrite get_unpack by lia.
+    destruct (bit_at m lsb j) as [b|e]; [|reflexivity]. cbn [bind].
+    unfold pick_opt. replace (Bool.eqb (negb ((if b then 1 else 0) =? 0)) vw) with (Bool.eqb b vw) by (destruct b; reflexivity).
+    destruct (Bool.eqb b vw); [|reflexivity]. symmetry. apply get_take. lia.
+  - destruct (IH None None len cvs Hc Hfc I ltac:(cbn; lia) Hcvs) as (c1 & Hof & Hb & Hl1 & _). cbn [efflen] in Hb.
+    exists (BitMasked m vw lsb len c1). cbn [to_ftree of_ftree]. rewrite Hof. cbn [bind].
+    replace (zlen m * 8 <? len) with false by lia. replace (clen c1 <? len) with false by lia.
+    split; [reflexivity|]. cbn [clen resets]. split; [lia|]. split; [|discriminate].
+    rewrite to_list_BitMasked, Hl1. cbn [bind]. replace (len <? 0) with false by lia.
+    rewrite <- (mapM_take _ _ _ len Hvs). rewrite iota_take by lia. apply mapM_ext_in. intros i Hi. apply iota_In' in Hi.
+    destruct (bit_at m lsb i) as [b|e]; [|reflexivity]. cbn [bind]. unfold pick_opt. destruct (Bool.eqb b vw); [|reflexivity].
+    apply get_take. lia.
 Qed.
 
 (* ---------------------------------------------------------------- records *)
@@ -414,6 +517,77 @@ Proof.
   apply mapM_ext_in. intros i Hi. apply iota_In' in Hi. unfold row. rewrite (cols_get len vss1 vss i HF2) by lia. reflexivity.
 Qed.
 
+(* ---------------------------------------------------------------- unions *)
+Lemma frag16_union_all cs :
+  (fix all (l : list content) : bool := match l with [] => true | x :: xs => frag16 x && resets x && all xs end) cs =
+  forallb (fun x => frag16 x && resets x) cs.
+Proof. induction cs as [|x xs IH]; [reflexivity|]. cbn [forallb]. rewrite IH. reflexivity. Qed.
+
+Lemma Valid_Union_inv2 p w tg ix cs : Valid p (Union w tg ix cs) ->
+  Forall (fun ti : Z * Z => 0 <= fst ti /\ 0 <= snd ti /\ exists lc, get (map clen cs) (fst ti) = Ok lc /\ snd ti < lc) (zip tg ix).
+Proof. inversion 1; subst; auto. Qed.
+
+Lemma mine_In tg ix i x : In x (mine tg ix i) -> In (i, x) (zip tg ix).
+Proof.
+  unfold mine. intros H. apply in_map_iff in H as ([a b] & <- & H). apply filter_In in H as [H E]. cbn [fst snd] in *.
+  replace i with a by lia. exact H.
+Qed.
+
+Lemma rt_union_children tg ix cs : Forall rt_at cs -> forall i vss,
+  Forall (Valid None) cs -> forallb (fun x => frag16 x && resets x) cs = true -> mapM to_list cs = Ok vss -> 0 <= i ->
+  (forall j c, nth_error cs j = Some c -> forall x, In x (mine tg ix (i + Z.of_nat j)) -> 0 <= x < clen c) ->
+  exists cs1, of_all_un false tg ix (to_ftree_all cs None) i = Ok cs1 /\ mapM to_list cs1 = Ok vss.
+Proof.
+  induction 1 as [|c cs Hc _ IH]; intros i vss HV Hf Hvss Hi Hb.
+  - cbn in Hvss. injection Hvss as <-. exists []. split; reflexivity.
+  - cbn [mapM] in Hvss. apply bind_Ok in Hvss as (v & Hv & Hvss). apply bind_Ok in Hvss as (vs' & Hvs' & Hvss). injection Hvss as <-.
+    inversion HV as [|? ? HVc HVcs]; subst. cbn [forallb] in Hf. apply andb_true_iff in Hf as [Hfc Hfcs].
+    apply andb_true_iff in Hfc as [Hfc Hrc].
+    destruct (to_list_clen c v Hv) as [Hzv Hc0].
+    set (need := match mine tg ix i with [] => 0 | l' => max_or0 l' + 1 end).
+    assert (Hneed : 0 <= need <= clen c).
+    { unfold need. destruct (mine tg ix i) as [|x0 r] eqn:E; [lia|]. rewrite <- E.
+      assert (Hne : mine tg ix i <> []) by (rewrite E; discriminate).
+      pose proof (max_or0_nonempty_in _ Hne) as Hin. specialize (Hb 0%nat c eq_refl (max_or0 (mine tg ix i))).
+      rewrite Z.add_0_r in Hb. specialize (Hb Hin). lia. }
+    destruct (Hc None None need v HVc Hfc I ltac:(cbn; lia) Hv) as (c1 & Hof & Hbd & Hl1 & Hr). specialize (Hr Hrc). cbn [efflen] in Hr.
+    rewrite Hr, take_all in Hl1 by lia.
+    destruct (IH (i + 1) vs' HVcs Hfcs Hvs' ltac:(lia)) as (cs1 & Hofs & Hls).
+    { intros j c' Hj x Hx. apply (Hb (S j) c' Hj x). replace (i + Z.of_nat (S j)) with (i + 1 + Z.of_nat j) by lia. exact Hx. }
+    exists (c1 :: cs1). cbn [to_ftree_all of_all_un mapM]. fold need. rewrite Hof, Hofs, Hl1, Hls. cbn [bind]. split; reflexivity.
+Qed.
+
+Lemma rt_Union w tg ix cs : Forall rt_at cs -> rt_at (Union w tg ix cs).
+Proof.
+  intros IH p t len vs HV Hf Ht Hlen Hvs. unfold rt_concl.
+  cbn [frag16] in Hf. rewrite frag16_union_all in Hf.
+  pose proof (Valid_Union_inv2 p w tg ix cs HV) as Hti. apply Valid_Union_inv in HV as (Hlti & Hcs).
+  rewrite to_list_Union, all_lists_mapM in Hvs. apply bind_Ok in Hvs as (vss & Hvss & Hvs).
+  replace (zlen ix <? zlen tg) with false in Hvs by lia.
+  set (k := efflen t (Union w tg ix cs)) in *.
+  assert (Hk : 0 <= k <= zlen tg) by (unfold k, efflen, trim_ok in *; cbn [clen] in *; pose proof (zlen_nonneg tg); destruct t; lia).
+  set (tg' := trim t tg). set (ix' := trim t ix).
+  assert (Hztg : zlen tg' = k).
+  { unfold tg', k, efflen. destruct t as [j|]; cbn [trim clen]; [|reflexivity]. cbn in Ht. rewrite zlen_take_min; lia. }
+  assert (Hzix : k <= zlen ix').
+  { unfold ix', k, efflen. destruct t as [j|]; cbn [trim clen]; [|lia]. cbn in Ht. rewrite zlen_take_min; lia. }
+  assert (Hzip : zip tg' ix' = take k (zip tg ix)).
+  { unfold tg', ix', k, efflen. destruct t as [j|]; cbn [trim clen]; [apply zip_take|].
+    rewrite take_all; [reflexivity|]. rewrite zlen_zip. lia. }
+  destruct (rt_union_children (take len tg') (take len ix') cs IH 0 vss Hcs Hf Hvss ltac:(lia)) as (cs1 & Hof & Hls).
+  { intros j c Hj x Hx. rewrite Z.add_0_l in Hx. apply mine_In in Hx. rewrite zip_take, Hzip in Hx.
+    apply In_take in Hx. apply In_take in Hx. rewrite Forall_forall in Hti. destruct (Hti _ Hx) as (_ & Hx0 & lc & Hg & Hlt).
+    cbn [fst snd] in *. rewrite get_map in Hg. unfold get in Hg. destruct (Z.of_nat j <? 0) eqn:E; [lia|].
+    rewrite Nat2Z.id, Hj in Hg. cbn in Hg. injection Hg as <-. lia. }
+  exists (Union w tg' ix' cs1). rewrite to_ftree_Union, of_ftree_Union. fold tg' ix'.
+  replace (zlen tg' <? len) with false by (unfold k, efflen in *; cbn [clen] in *; lia).
+  replace (zlen ix' <? len) with false by (unfold k, efflen in *; cbn [clen] in *; lia).
+  cbv zeta. rewrite Hof. cbn [bind]. replace (zlen ix' <? zlen tg') with false by lia.
+  split; [reflexivity|]. cbn [clen]. split; [unfold k, efflen in *; cbn [clen] in *; lia|]. split; [|intros _; lia].
+  rewrite to_list_Union, all_lists_mapM, Hls. cbn [bind]. replace (zlen ix' <? zlen tg') with false by lia.
+  rewrite Hzip, Hztg. apply mapM_take. exact Hvs.
+Qed.
+
 (* ---------------------------------------------------------------- assembling *)
 Lemma rt_Unmasked c : rt_at c -> rt_at (Unmasked c).
 Proof.
@@ -442,9 +616,9 @@ Proof.
   - apply rt_Indexed; assumption.
   - apply rt_IndexedOption; assumption.
   - apply rt_ByteMasked; assumption.
-  - intros p t len vs _ Hf. discriminate Hf.
+  - apply rt_BitMasked; assumption.
   - apply rt_Unmasked; assumption.
-  - intros p t0 len vs _ Hf. discriminate Hf.
+  - apply rt_Union; assumption.
   - apply rt_Record; assumption.
   - apply rt_Par; assumption.
 Qed.
@@ -454,8 +628,8 @@ Qed.
     FULL STATEMENT (not proved, and false for the pinned code, see [buffers_roundtrip_refuted]):
       forall c, Valid None c -> exists c', from_buffers (to_buffers c) = Ok c' /\ to_list c' = to_list c /\ type_of c' = type_of c.
     [chars_ok]: the character buffers of strings are sound (1-d uint8 data as long as its shape says; Valid does not look
-    into them).  Missing from the fragment: n-d NumpyArray, BitMaskedArray, UnionArray, RegularArray of size 0,
-    ListArray / ByteMaskedArray whose content is a RecordArray (possibly inside RegularArrays, UnmaskedArrays), offsets
+    into them).  Missing from the fragment: NumpyArray with a zero inner dimension, UnionArray whose contents do not come back whole,
+    ListArray / ByteMaskedArray / BitMaskedArray whose content is a RecordArray (possibly inside RegularArrays, UnmaskedArrays), offsets
     beyond the content for all-empty lists. *)
 Theorem buffers_roundtrip_partial_thm c : Valid None c -> frag16 c = true -> chars_ok c = true ->
   exists c', from_buffers (to_buffers c) = Ok c' /\ to_list c' = to_list c /\ type_of c' = type_of c /\ clen c' = clen c.
@@ -501,3 +675,21 @@ Example buffers_roundtrip_fixed_ex :
              (ByteMasked [1; 1; 0; 1; 1] true (Record [Numpy DInt64 [5] [DZ 0; DZ 1; DZ 2; DZ 3; DZ 4]] (Some [[120]]) 5)) in
   exists c', from_buffers_gen true (to_buffers c) = Ok c' /\ to_list c' = to_list c.
 Proof. eexists. split; vm_compute; reflexivity. Qed.
+
+(* every node class occurs in the fragment *)
+Example buffers_roundtrip_all_nodes_ex :
+  let c := Record [Union I32 [1; 0; 1; 0] [0; 1; 2; 0; 7]
+                     [Numpy DFloat64 [3; 2] [DZ 1; DZ 2; DZ 3; DZ 4; DZ 5; DZ 6; DNaN];
+                      ListOffset U32 [2; 2; 3; 5; 5] (Numpy DInt8 [6] [DZ 9; DZ 8; DZ 7; DZ 6; DZ 5; DZ 4])];
+                   BitMasked [5; 255] true false 3 (ListOffset I64 [0; 0; 1; 1; 2] (Indexed I64 [1; 0] (Numpy DBool [2] [DZ 1; DZ 0])));
+                   Unmasked (Regular Empty 0 4);
+                   Regular (IndexedOption I32 [-1; 0] (Numpy DInt16 [1] [DZ 5])) 0 7;
+                   BitMasked [6] false true 4 (ListA I64 [1; 0; 0; 2] [2; 0; 0; 3] (Numpy DInt64 [3] [DZ 1; DZ 2; DZ 3]))]
+                  None 3 in
+  validb None c = true /\ frag16 c = true /\ chars_ok c = true /\
+  exists c', from_buffers (to_buffers c) = Ok c' /\ to_list c' = to_list c /\ c' <> c /\ exists vs, to_list c = Ok vs.
+Proof.
+  cbv zeta. split; [vm_compute; reflexivity|]. split; [vm_compute; reflexivity|]. split; [vm_compute; reflexivity|].
+  eexists. split; [vm_compute; reflexivity|]. split; [vm_compute; reflexivity|]. split; [discriminate|].
+  eexists. vm_compute. reflexivity.
+Qed.
